@@ -68,6 +68,124 @@ fn term(s: &str) -> T {
     }
 }
 
+/// parse the raw text of a comparison operand ("?v", "2", "(?v + 1) * 2") into arithmetic
+fn parse_arith(text: &str) -> Option<Arith> {
+    fn toks(text: &str) -> Vec<String> {
+        let mut out = Vec::new();
+        let mut cur = String::new();
+        let mut in_lit = false;
+        let mut in_comment = false;
+        for c in text.chars() {
+            // the operand text is a raw source slice: comments between its tokens belong to the layout
+            if in_comment {
+                if c == '\n' || c == '\r' {
+                    in_comment = false;
+                }
+                continue;
+            }
+            if c == '#' && !in_lit && !cur.starts_with('<') {
+                if !cur.is_empty() {
+                    out.push(std::mem::take(&mut cur));
+                }
+                in_comment = true;
+                continue;
+            }
+            if in_lit {
+                cur.push(c);
+                if c == '"' && !cur.ends_with("\\\"") {
+                    in_lit = false;
+                    out.push(std::mem::take(&mut cur));
+                }
+                continue;
+            }
+            match c {
+                '"' => {
+                    if !cur.is_empty() {
+                        out.push(std::mem::take(&mut cur));
+                    }
+                    cur.push(c);
+                    in_lit = true;
+                }
+                '(' | ')' | '+' | '*' | '/' => {
+                    if !cur.is_empty() {
+                        out.push(std::mem::take(&mut cur));
+                    }
+                    out.push(c.to_string());
+                }
+                '-' if cur.is_empty() || !cur.starts_with('<') => {
+                    if !cur.is_empty() {
+                        out.push(std::mem::take(&mut cur));
+                    }
+                    out.push(c.to_string());
+                }
+                c if c.is_whitespace() => {
+                    if !cur.is_empty() {
+                        out.push(std::mem::take(&mut cur));
+                    }
+                }
+                c => cur.push(c),
+            }
+        }
+        if !cur.is_empty() {
+            out.push(cur);
+        }
+        out
+    }
+    fn operand(t: &[String], i: &mut usize) -> Option<Arith> {
+        let tok = t.get(*i)?;
+        if tok == "(" {
+            *i += 1;
+            let e = sum(t, i)?;
+            if t.get(*i)? != ")" {
+                return None;
+            }
+            *i += 1;
+            return Some(e);
+        }
+        if matches!(tok.as_str(), ")" | "+" | "-" | "*" | "/") {
+            return None;
+        }
+        *i += 1;
+        Some(Arith::Operand(term(tok)))
+    }
+    fn product(t: &[String], i: &mut usize) -> Option<Arith> {
+        let mut e = operand(t, i)?;
+        while let Some(op) = t.get(*i) {
+            if op == "*" || op == "/" {
+                let mul = op == "*";
+                *i += 1;
+                let r = operand(t, i)?;
+                e = if mul { Arith::Mul(Box::new(e), Box::new(r)) } else { Arith::Div(Box::new(e), Box::new(r)) };
+            } else {
+                break;
+            }
+        }
+        Some(e)
+    }
+    fn sum(t: &[String], i: &mut usize) -> Option<Arith> {
+        let mut e = product(t, i)?;
+        while let Some(op) = t.get(*i) {
+            if op == "+" || op == "-" {
+                let add = op == "+";
+                *i += 1;
+                let r = product(t, i)?;
+                e = if add { Arith::Add(Box::new(e), Box::new(r)) } else { Arith::Sub(Box::new(e), Box::new(r)) };
+            } else {
+                break;
+            }
+        }
+        Some(e)
+    }
+    let t = toks(text);
+    let mut i = 0;
+    let e = sum(&t, &mut i)?;
+    if i == t.len() {
+        Some(e)
+    } else {
+        None
+    }
+}
+
 fn conv_expr(f: &kq::FilterExpression) -> Result<Expr, String> {
     Ok(match f {
         kq::FilterExpression::Comparison(a, op, b) => {
@@ -80,7 +198,11 @@ fn conv_expr(f: &kq::FilterExpression) -> Result<Expr, String> {
                 ">=" => Cmp::Ge,
                 o => return Err(format!("operator {}", o)),
             };
-            Expr::Cmp(term(a), op, term(b))
+            match (parse_arith(a), parse_arith(b)) {
+                (Some(Arith::Operand(x)), Some(Arith::Operand(y))) => Expr::Cmp(x, op, y),
+                (Some(x), Some(y)) => Expr::ArithCmp(x, op, y),
+                _ => Expr::Cmp(term(a), op, term(b)),
+            }
         }
         kq::FilterExpression::And(a, b) => Expr::And(Box::new(conv_expr(a)?), Box::new(conv_expr(b)?)),
         kq::FilterExpression::Or(a, b) => Expr::Or(Box::new(conv_expr(a)?), Box::new(conv_expr(b)?)),
